@@ -8,6 +8,10 @@ CONSTANTS
   K = 3
   MaxRounds = 6
   MaxRematch = 0
+  Win = 256
+  Bursts = {}
+  OutageAt = 0
+  KeySNs = {}
   GenK = 3
 VIEW View
 INVARIANT Inv_Converge
